@@ -132,6 +132,19 @@ jobs:
     runs-on: ubuntu-latest
     steps:
       - run: echo
+`, `
+on: push
+jobs:
+  a:
+    runs-on: [self-hosted, linux,
+      ubuntu-22.04, windows-latest,
+   macos-latest]
+    steps:
+      - run: echo
+`, `
+on: push
+jobs: {zz: {needs: [b], runs-on: ubuntu-latest, steps: [{run: echo}]}, b: {needs: [zz], runs-on: ubuntu-latest, steps: [{run: echo}]},
+ c: {needs: [d], runs-on: ubuntu-latest, steps: [{run: echo}]}, d: {needs: [c], runs-on: ubuntu-latest, steps: [{run: echo}]}}
 `)
 }
 
@@ -210,4 +223,33 @@ func HarnessC02WorkflowCall() {
 		verifCheckf(verifSameSeq(e0, e1), "output-depends-on-map-iteration-order", "checkWorkflowCallUsesLocal: "+verifErrTextConc(e1))
 	}
 	verifReach("compared")
+}
+
+// HarnessC02Order: the comparators that make "pick the smallest" and the final
+// sort independent of iteration order are strict total / strict weak orders —
+// for every pair and triple of positions (full 64-bit lines and columns).
+// Pos.IsBefore is what the runner-label and needs-cycle rules use to choose
+// among candidates found in map order; ByErrorPosition.Less orders the output.
+func HarnessC02Order() {
+	p := &Pos{verifSymInt("l1"), verifSymInt("c1")}
+	q := &Pos{verifSymInt("l2"), verifSymInt("c2")}
+	r := &Pos{verifSymInt("l3"), verifSymInt("c3")}
+	pq, qp, qr, pr := p.IsBefore(q), q.IsBefore(p), q.IsBefore(r), p.IsBefore(r)
+	verifReach("compared")
+	verifCheck(!(pq && qp), "IsBefore-not-antisymmetric")
+	same := p.Line == q.Line && p.Col == q.Col
+	verifCheck(same || pq || qp, "IsBefore-not-total")
+	verifCheck(!same || (!pq && !qp), "IsBefore-not-irreflexive")
+	verifCheck(!(pq && qr) || pr, "IsBefore-not-transitive")
+
+	es := ByErrorPosition{
+		{Filepath: "f", Line: p.Line, Column: p.Col},
+		{Filepath: "f", Line: q.Line, Column: q.Col},
+		{Filepath: "f", Line: r.Line, Column: r.Col},
+	}
+	l01, l10, l12, l02 := es.Less(0, 1), es.Less(1, 0), es.Less(1, 2), es.Less(0, 2)
+	verifCheck(!(l01 && l10), "Less-not-antisymmetric")
+	verifCheck(same || l01 || l10, "Less-leaves-distinct-positions-unordered")
+	verifCheck(!(l01 && l12) || l02, "Less-not-transitive")
+	verifCheck(l01 == pq, "Less-and-IsBefore-disagree")
 }
